@@ -30,7 +30,7 @@ Read, in this order and completely, before doing anything else:
 
 Seeded changes of {pid} that are NOT plainly caught in the complete re-run made just before this round (all others are caught): {'; '.join(srows) or 'none'}. (seeded/{pid}-*/result.json have the details: `tail` is the end of the check's output, `replay_what` the reported failure.)
 
-Behaviour-preserving refactorings on which YOUR check did not stay plainly green: {'; '.join(rrows) or 'none so far'}. (Complete table: /verif/refac/RESULTS.md; per refactoring refac/<name>/refac_result.json. Each refactoring was run against the checks whose extractors read the files it touches, plus its owner.)
+Behaviour-preserving refactorings on which YOUR check did not stay plainly green: {'; '.join(rrows) or 'none so far'}. (The complete re-run of the 51 refactorings against the round-5 machinery is in progress from a clean snapshot and fills /verif/refac/<name>/refac_result.json one by one during the next hour — an empty list here only means 'not yet re-run'; look at `grep -l <ID> refac/*/refac_result.json` results after 45 minutes and again after 75: every entry of your property whose outcome is not `ok` is work for step 3. Each refactoring is run against the checks whose extractors read the files it touches, plus its owner.)
 
 {extra.get(pid, '')}
 
